@@ -109,6 +109,8 @@ pub enum Op {
     Read { k: K, variant: ReadVariant },
     /// multi-key read through one of the three multi variants
     MultiRead { keys: Vec<K>, variant: ReadVariant },
+    /// every read variant for every key, variant-major: result[v * keys.len() + i]
+    ReadAll { keys: Vec<K> },
     /// await the acknowledgement of this thread's call number `call` (index into the thread's op list)
     Await { call: usize },
     /// await every acknowledgement this thread obtained so far
@@ -142,6 +144,7 @@ impl Op {
             Op::Delete { k } => format!("delete({})", k),
             Op::Read { k, variant } => format!("{:?}({})", variant, k),
             Op::MultiRead { keys, variant } => format!("{:?}({:?})", variant, keys),
+            Op::ReadAll { keys } => format!("read_all_variants({:?})", keys),
             Op::Await { call } => format!("await(#{})", call),
             Op::AwaitAll => "await_all".into(),
             Op::Advance { ms } => format!("clock+{}ms", ms),
@@ -188,6 +191,7 @@ pub struct Call {
     pub ret: u64,
     pub res: Res,
     pub now_ms_inv: u64,
+    pub now_ms_ret: u64,
 }
 
 pub const PHASE_INIT: usize = usize::MAX - 1;
@@ -437,6 +441,20 @@ impl ThreadCtx {
             Op::Delete { k } => catch(|| cache.delete(*k)).map(|r| self.write_res(idx, mark, r)),
             Op::Read { k, variant } => catch(|| read_one(cache, *k, *variant)).map(Res::Read),
             Op::MultiRead { keys, variant } => catch(|| read_many(cache, keys, *variant)).map(Res::MultiRead),
+            Op::ReadAll { keys } => catch(|| {
+                let mut out = Vec::new();
+                for v in ALL_READ_VARIANTS.iter() {
+                    if keys.len() > 1 && matches!(v, ReadVariant::MultiGet | ReadVariant::MultiGetIterator | ReadVariant::MultiGetMapIterator) {
+                        out.extend(read_many(cache, keys, *v));
+                    } else {
+                        for k in keys.iter() {
+                            out.push(read_one(cache, *k, *v));
+                        }
+                    }
+                }
+                out
+            })
+            .map(Res::MultiRead),
             Op::Await { call } => {
                 let ack = self.acks.iter().find(|(c, _)| c == call).map(|(_, a)| a.clone());
                 match ack {
@@ -485,7 +503,8 @@ impl ThreadCtx {
             Err(m) => Res::Panicked(m),
         };
         let ret = world::stamp();
-        self.calls.push(Call { thread, idx, op: op.clone(), value, inv, ret, res, now_ms_inv });
+        let now_ms_ret = env.now();
+        self.calls.push(Call { thread, idx, op: op.clone(), value, inv, ret, res, now_ms_inv, now_ms_ret });
     }
 
     fn write_res(&mut self, idx: usize, mark: usize, r: crate::cache::command::command_executor::CommandSendResult) -> Res {
@@ -544,6 +563,8 @@ pub struct Obs {
     pub stats: [u64; 10],
     pub hit_ratio: f64,
     pub lfu_total_increments: u64,
+    /// sketch estimates (doorkeeper included) of keys 1..=4 under the configured hash function
+    pub estimates: Vec<u8>,
 }
 
 pub const STATS: [StatsType; 10] = [
@@ -594,6 +615,7 @@ pub fn observe(env: &Env) -> Obs {
         stats,
         hit_ratio: summary.hit_ratio,
         lfu_total_increments: policy.verif_total_increments(),
+        estimates: (1..=4u64).map(|k| policy.estimate(match env.setup.hash_fn { HashFn::Identity => k, HashFn::Constant(c) => c })).collect(),
     }
 }
 
